@@ -594,6 +594,10 @@ namespace bluetoe {
                     return;
                 }
             }
+
+            // an indication that is not send out, will never be confirmed
+            if ( pending.first == details::notification_queue_entry_type::indication )
+                connection.indication_confirmed();
         }
 
         out_size = 0;
